@@ -123,6 +123,11 @@ def showRefs (rs : List (Iv × Key)) : String :=
 
 def showState (σ : St) : String := s!"pending={showPairs σ.pending} refs={showRefs σ.refs}"
 
+/-- the bookkeeping as the harness can read it: the references of a target store that is closed are on disk
+only (not visible through the store manager) -/
+def DS.showSt (d : DS) (σ : St) : String :=
+  showState { σ with refs := σ.refs.filter (fun q => (d.world.lookup (d.nameOf q.2.1 q.1)).isSome) }
+
 def showRec : Rec → String
   | .flush k ne ivs =>
     let is := (ivs.toArray.qsort (· < ·)).toList
@@ -208,7 +213,7 @@ def step (d : DS) (ws : List String) : DS × String :=
       if d.st.registered.all (fun p => decide (p.1 ≠ (h, f))) && d.files.all (fun p => decide (p.1 ≠ (h, f))) then
         let r := Rec.flush (h, f) (ne ≠ 0) d.tgts
         let σ := d.st.step (.flush h f (ne ≠ 0) d.tgts)
-        ({ d with st := σ, files := d.files ++ [((h, f), blocks)] }, s!"rec={showRec r} {showState σ}")
+        ({ d with st := σ, files := d.files ++ [((h, f), blocks)] }, s!"rec={showRec r} {d.showSt σ}")
       else (d, "stale-file-number")
     | _, _, _, _ => (d, "bad-op")
   | ["rollup", h, ivs, dvs, avail, cut] =>
@@ -237,7 +242,7 @@ def step (d : DS) (ws : List String) : DS × String :=
           let σ := d.st.step (.rollup h ivs av dvs cut)
           let rs := if recs.isEmpty then "-" else ";".intercalate (recs.map showRec)
           ({ d with st := σ, tfiles := d.tfiles ++ o, wr := d.afterRun h ivs cut.isSome },
-            s!"recs={rs} {showState σ}")
+            s!"recs={rs} {d.showSt σ}")
     | _, _, _, _, _ => (d, "bad-op")
   | ["rollupq", h, ivs, dvs, avail] =>
     -- the job of family `h` inside ONE Store.ForceRollup (jobs of different families interleave;
@@ -288,33 +293,35 @@ def step (d : DS) (ws : List String) : DS × String :=
         let rs := if recs.isEmpty then "-" else ";".intercalate (recs.map showRec)
         let failed := match all[k]? with | some r => showRec r | none => "-"
         ({ d with st := σ, tfiles := d.tfiles ++ o, wr := d.afterRun h ivs false },
-          s!"recs={rs} failed={failed} {showState σ}")
+          s!"recs={rs} failed={failed} {d.showSt σ}")
     | _, _, _, _, _ => (d, "bad-op")
-  | ["state"] => (d, showState d.st)
+  | ["state"] => (d, d.showSt d.st)
   | ["compact", ks] =>
     -- (outside C04's operations) a compaction of the source family: the files leave level 0
     match (ks.splitOn ",").mapM (fun w => match w.splitOn "." with
         | [a, b] => do let x ← a.toNat?; let y ← b.toNat?; some (x, y)
         | _ => none) with
-    | some keys => let σ := d.st.apply (.compact keys); ({ d with st := σ }, showState σ)
+    | some keys => let σ := d.st.apply (.compact keys); ({ d with st := σ }, d.showSt σ)
     | none => (d, "bad-op")
   | ["reopen"] =>
     -- close + open: the manifest snapshot (`createFamilySnapshot`, shape regenerated) replayed into
     -- fresh versions
     let σ := d.st.restart Generated.C04.snapshotRefFamilyIsLoopVar (fun _ => 0) id
-    ({ d with st := σ, wr := d.world.renew }, showState σ)
+    ({ d with st := σ, wr := d.world.renew }, d.showSt σ)
   | ["topen", tgt, seg] =>
     -- CreateStore of one target store (`World.step`, `.topen`): a new object unless one is registered
     match tgt.toNat?, seg.toInt? with
     | some t, some sg =>
       let w := d.world.step cachedShape d.nameOf (fun _ => 0) (.topen (t, sg) id)
-      ({ d with st := w.st, wr := w }, s!"{showReg w} {showState w.st}")
+      let d' := { d with st := w.st, wr := w }
+      (d', s!"{showReg w} {d'.showSt w.st}")
     | _, _ => (d, "bad-op")
   | ["tclose", tgt, seg] =>
     match tgt.toNat?, seg.toInt? with
     | some t, some sg =>
       let w := d.world.step cachedShape d.nameOf (fun _ => 0) (.tclose (t, sg))
-      ({ d with st := w.st, wr := w }, s!"{showReg w} {showState w.st}")
+      let d' := { d with st := w.st, wr := w }
+      (d', s!"{showReg w} {d'.showSt w.st}")
     | _, _ => (d, "bad-op")
   | ["read", tgt] =>
     match tgt.toNat? with
